@@ -414,6 +414,7 @@ impl FatVolume {
                 // `first_root_dir_block`). Other directories can have any size
                 // as they are made of regular clusters.
                 let mut current_cluster = Some(dir_cluster);
+                let root_entries_count = fat16_info.root_entries_count;
                 let mut first_dir_block_num = match dir_cluster {
                     ClusterId::ROOT_DIR => self.lba_start + fat16_info.first_root_dir_block,
                     _ => self.cluster_to_block(dir_cluster),
@@ -429,13 +430,16 @@ impl FatVolume {
 
                 // Walk the directory
                 while let Some(cluster) = current_cluster {
-                    for block_idx in first_dir_block_num.range(dir_size) {
+                    for (nth, block_idx) in first_dir_block_num.range(dir_size).enumerate() {
                         trace!("Reading directory");
+                        let slots = Self::fat16_slots_in_block(dir_cluster, root_entries_count, nth);
                         let block = block_cache
                             .read_mut(block_idx)
                             .map_err(Error::DeviceError)?;
-                        for (i, dir_entry_bytes) in
-                            block.chunks_exact_mut(OnDiskDirEntry::LEN).enumerate()
+                        for (i, dir_entry_bytes) in block
+                            .chunks_exact_mut(OnDiskDirEntry::LEN)
+                            .take(slots)
+                            .enumerate()
                         {
                             let dir_entry = OnDiskDirEntry::new(dir_entry_bytes);
                             // 0x00 or 0xE5 represents a free entry
@@ -731,10 +735,15 @@ impl FatVolume {
         };
 
         while let Some(cluster) = current_cluster {
-            for block_idx in first_dir_block_num.range(dir_size) {
+            for (nth, block_idx) in first_dir_block_num.range(dir_size).enumerate() {
                 trace!("Reading FAT");
+                let slots = Self::fat16_slots_in_block(dir_info.cluster, fat16_info.root_entries_count, nth);
                 let block = block_cache.read(block_idx)?;
-                for (i, dir_entry_bytes) in block.chunks_exact(OnDiskDirEntry::LEN).enumerate() {
+                for (i, dir_entry_bytes) in block
+                    .chunks_exact(OnDiskDirEntry::LEN)
+                    .take(slots)
+                    .enumerate()
+                {
                     let dir_entry = OnDiskDirEntry::new(dir_entry_bytes);
                     if dir_entry.is_end() {
                         // Can quit early
@@ -840,13 +849,14 @@ impl FatVolume {
                 };
 
                 while let Some(cluster) = current_cluster {
-                    for block in first_dir_block_num.range(dir_size) {
+                    for (nth, block) in first_dir_block_num.range(dir_size).enumerate() {
                         // (an end-of-directory marker ends the search with `NotFound`)
                         if let Some(entry) = self.find_entry_in_block(
                             block_cache,
                             FatType::Fat16,
                             match_name,
                             block,
+                            Self::fat16_slots_in_block(dir_info.cluster, fat16_info.root_entries_count, nth),
                         )? {
                             return Ok(entry);
                         }
@@ -881,6 +891,7 @@ impl FatVolume {
                             FatType::Fat32,
                             match_name,
                             block,
+                            Block::LEN / OnDiskDirEntry::LEN,
                         )? {
                             return Ok(entry);
                         }
@@ -897,7 +908,27 @@ impl FatVolume {
         }
     }
 
+    /// How many of the 16 slots of the `nth` block of a FAT16 directory belong
+    /// to the directory: all of them, except in the last block of a root
+    /// directory whose entry count (`BPB_RootEntCnt`) is not a multiple of 16 -
+    /// what lies behind the last root entry is padding, not directory.
+    fn fat16_slots_in_block(
+        dir_cluster: ClusterId,
+        root_entries_count: u16,
+        nth: usize,
+    ) -> usize {
+        const PER_BLOCK: usize = Block::LEN / OnDiskDirEntry::LEN;
+        match dir_cluster {
+            ClusterId::ROOT_DIR => usize::from(root_entries_count)
+                .saturating_sub(nth * PER_BLOCK)
+                .min(PER_BLOCK),
+            _ => PER_BLOCK,
+        }
+    }
+
     /// Finds an entry in a given block of directory entries.
+    ///
+    /// Only the first `slots` entries of the block are looked at.
     ///
     /// Returns `Ok(None)` if the name is not in this block but may be in a
     /// later one, and `Err(Error::NotFound)` if the block holds the
@@ -909,13 +940,18 @@ impl FatVolume {
         fat_type: FatType,
         match_name: &ShortFileName,
         block_idx: BlockIdx,
+        slots: usize,
     ) -> Result<Option<DirEntry>, Error<D::Error>>
     where
         D: BlockDevice,
     {
         trace!("Reading directory");
         let block = block_cache.read(block_idx).map_err(Error::DeviceError)?;
-        for (i, dir_entry_bytes) in block.chunks_exact(OnDiskDirEntry::LEN).enumerate() {
+        for (i, dir_entry_bytes) in block
+            .chunks_exact(OnDiskDirEntry::LEN)
+            .take(slots)
+            .enumerate()
+        {
             let dir_entry = OnDiskDirEntry::new(dir_entry_bytes);
             if dir_entry.is_end() {
                 // The directory ends here
@@ -963,10 +999,11 @@ impl FatVolume {
                 // Walk the directory
                 while let Some(cluster) = current_cluster {
                     // Scan the cluster / root dir a block at a time
-                    for block_idx in first_dir_block_num.range(dir_size) {
+                    for (nth, block_idx) in first_dir_block_num.range(dir_size).enumerate() {
                         // Either we delete it OK, or we carry on, or we hit the end of
                         // the directory / some catastrophic error reading/writing the disk.
-                        if self.delete_entry_in_block(block_cache, match_name, block_idx)? {
+                        let slots = Self::fat16_slots_in_block(dir_info.cluster, fat16_info.root_entries_count, nth);
+                        if self.delete_entry_in_block(block_cache, match_name, block_idx, slots)? {
                             return Ok(());
                         }
                     }
@@ -1003,7 +1040,12 @@ impl FatVolume {
                     {
                         // Either we delete it OK, or we carry on, or we hit the end of
                         // the directory / some catastrophic error reading/writing the disk.
-                        if self.delete_entry_in_block(block_cache, match_name, block_idx)? {
+                        if self.delete_entry_in_block(
+                            block_cache,
+                            match_name,
+                            block_idx,
+                            Block::LEN / OnDiskDirEntry::LEN,
+                        )? {
                             return Ok(());
                         }
                     }
@@ -1028,6 +1070,8 @@ impl FatVolume {
     /// Entries are marked as deleted by setting the first byte of the file name
     /// to a special value.
     ///
+    /// Only the first `slots` entries of the block are looked at.
+    ///
     /// Returns `Ok(true)` if the entry was deleted, `Ok(false)` if the name is
     /// not in this block but may be in a later one, and `Err(Error::NotFound)`
     /// if the block holds the end-of-directory marker.
@@ -1036,6 +1080,7 @@ impl FatVolume {
         block_cache: &mut BlockCache<D>,
         match_name: &ShortFileName,
         block_idx: BlockIdx,
+        slots: usize,
     ) -> Result<bool, Error<D::Error>>
     where
         D: BlockDevice,
@@ -1044,7 +1089,11 @@ impl FatVolume {
         let block = block_cache
             .read_mut(block_idx)
             .map_err(Error::DeviceError)?;
-        for (i, dir_entry_bytes) in block.chunks_exact_mut(OnDiskDirEntry::LEN).enumerate() {
+        for (i, dir_entry_bytes) in block
+            .chunks_exact_mut(OnDiskDirEntry::LEN)
+            .take(slots)
+            .enumerate()
+        {
             let dir_entry = OnDiskDirEntry::new(dir_entry_bytes);
             if dir_entry.is_end() {
                 // The directory ends here
